@@ -698,3 +698,58 @@ func sameFileShellSpellings(e *env) []func() {
 	}
 	return out
 }
+
+// sameFileRemovedCwd: the tool is started in a working directory that has
+// been removed (os.Getwd fails from the first moment), every file is named by
+// an absolute path, and -o is another absolute spelling of a file in use.
+func sameFileRemovedCwd(e *env) []func() {
+	r := e.r
+	var out []func()
+	x1 := keys.NewX("X1").PublicStr
+	type cl struct {
+		name, target string
+		argv         func(d, o string) []string
+	}
+	cls := []cl{
+		{"input(encrypt)", "in.txt", func(d, o string) []string { return []string{"-r", x1, "-o", o, d + "/in.txt"} }},
+		{"input(decrypt)", "in.age", func(d, o string) []string { return []string{"-d", "-i", d + "/x1.key", "-o", o, d + "/in.age"} }},
+		{"identity(decrypt)", "x1.key", func(d, o string) []string { return []string{"-d", "-i", d + "/x1.key", "-o", o, d + "/in.age"} }},
+		{"recipients-file", "rcpts.txt", func(d, o string) []string { return []string{"-R", d + "/rcpts.txt", "-o", o, d + "/in.txt"} }},
+	}
+	spell := func(d, n string) []string {
+		return []string{d + "/" + n, d + "/./" + n, d + "//" + n, d + "/sub/../" + n, "/" + d + "/" + n, d + "/sub/./../" + n}
+	}
+	for _, c := range cls {
+		for si := 0; si < 6; si++ {
+			c, si := c, si
+			out = append(out, func() {
+				d := e.dir()
+				defer e.done(d)
+				os.Mkdir(filepath.Join(d, "sub"), 0o755)
+				pt := []byte("same-file plaintext\n")
+				os.WriteFile(filepath.Join(d, "in.txt"), pt, 0o600)
+				os.WriteFile(filepath.Join(d, "in.age"), refFile("X", pt, false, "samefile"), 0o600)
+				sp := spell(d, c.target)[si]
+				before := snapshot(filepath.Join(d, c.target))
+				inner := append([]string{e.age}, c.argv(d, sp)...)
+				argv := append([]string{"sh", "-c", `d=$1; shift; mkdir "$d/gone" && cd "$d/gone" && rmdir "$d/gone" && exec "$@"`, "sh", d}, inner...)
+				res := cli.Run(&cli.Cmd{Argv: argv, Dir: d})
+				after := snapshot(filepath.Join(d, c.target))
+				desc := fmt.Sprintf("same-file %s from a removed working directory, output spelled %q", c.name, strings.Replace(sp, d, "$D", 1))
+				r.Eval(1)
+				r.Distinct(desc)
+				r.Tab("same_file", c.name+"(removed cwd)")
+				if res.Err != nil {
+					r.Inconclusive("%s: driver error %v", desc, res.Err)
+					return
+				}
+				if res.Exit == 0 || before != after {
+					r.Violate("same-file-accepted:removed-cwd:"+c.name, fmt.Sprintf("%s: exit=%d, file changed=%v (the output names a file in use and must be refused)", desc, res.Exit, before != after), map[string]any{"argv": argv})
+				} else {
+					r.Count("same_file_refusals", 1)
+				}
+			})
+		}
+	}
+	return out
+}
